@@ -48,4 +48,5 @@ fi
 git -C /repo worktree remove --force $WT
 rm -rf $W
 echo "checks:$RES"
+[ -f $OUT/result.txt ] && [ ! -f $OUT/first_result.txt ] && cp $OUT/result.txt $OUT/first_result.txt
 echo "confirm: demo-on-clean=$CLEAN build=$BUILD suite=$SUITE demo-on-mutant=$MDEMO checks:$RES" > $OUT/result.txt
